@@ -496,6 +496,15 @@ def precedence_cases():
         out.append(("int-sum:%d" % a_, pre + "cnt ?= x + y * 2\nprint cnt\n", [str(a_ + b_ * 2)]))
         out.append(("bool-compare:%d" % a_, pre + "lt ?= x < y\nprint lt\nif lt ?= x + 1 >= y && x != 0 {\n\tprint get lt\n}\n", [B[a_ < b_], B[a_ + 1 >= b_ and a_ != 0]]))
         out.append(("int-or:%d" % a_, pre + "cnt ?= (o) or x + y\nprint cnt\n", [str(a_ + b_)]))
+    # `a ?= <list literal>` for optional LISTS (of plain and of optional elements), in statement, value, `if` position
+    for et, lit, n_, first_nil, second in (("int?", "[1, nil, 3]", 3, "false", "true"), ("int?", "[7, 8]", 2, "false", "false"), ("int", "[7, 8]", 2, None, None),
+                                           ("str?", "[\"a\", nil]", 2, "false", "true"), ("str", "[\"a\"]", 1, None, None)):
+        pre = "slots: [%s...]? = nil\n" % et
+        tail = "cur = get slots\nprint cur.len()\n" + ("print cur[0] == nil\nprint cur[%d] == nil\n" % (1 if n_ > 1 else 0) if first_nil else "")
+        exp_tail = [str(n_)] + ([first_nil, second if n_ > 1 else first_nil] if first_nil else [])
+        out.append(("list-literal:stmt:%s:%s" % (et, lit), pre + "slots ?= %s\n" % lit + tail, exp_tail))
+        out.append(("list-literal:value:%s:%s" % (et, lit), pre + "ok = slots ?= %s\nprint ok\n" % lit + tail, ["true"] + exp_tail))
+        out.append(("list-literal:if:%s:%s" % (et, lit), pre + "if slots ?= %s {\n\tprint \"present\"\n} else {\n\tprint \"nil\"\n}\n" % lit + tail, ["present"] + exp_tail))
     return [{"precedence": n, "src": "print \"@start\"\n" + src + "print \"@end\"\n", "expect": ["@start"] + exp + ["@end"]} for n, src, exp in out]
 
 
